@@ -297,12 +297,8 @@ Definition handler_respond (calls : list callspec) (s : lst) (n : nat) (v : N) (
            end
   end.
 
-(* ---- the step function ---- *)
-Definition lstep (v : variant) (calls : list callspec) (s : lst) (c : choice) (b : nat) : option lst :=
-  if crashed s then None else
-  match c with
-  | Env a =>
-    only0 b
+(* ---- the step function, split by who moves ---- *)
+Definition step_env (calls : list callspec) (s : lst) (a : envact) : option lst :=
     match a with
     | EStart i =>
         match tget (threads s) (TCall i), nth_error calls i with
@@ -389,163 +385,181 @@ Definition lstep (v : variant) (calls : list callspec) (s : lst) (c : choice) (b
                           | 2 => mkFaults (f_wreq f) (f_wres f) (Some n) (f_unmarshal f)
                           | _ => mkFaults (f_wreq f) (f_wres f) (f_marshal f) (Some n)
                           end))
-    end
+    end.
+
+Definition dflt_call : callspec := mkCall 0 1 false 0.
+
+Definition step_caller (calls : list callspec) (s : lst) (i : nat) (st : tstate) : option lst :=
+  let cs := nth i calls dflt_call in
+  match st with
+  | CRegistered ent =>
+      let s0 := setT s (TWaiter i) (WStart ent) in           (* go waiter *)
+      if memN 0%N (cancelled s0) then Some (caller_panic calls s0 i (ECtx 0%N))   (* writeRequestCtx *)
+      else match take_fault s0 0 with
+           | (Some x, s1) => Some (caller_panic calls s1 i (EInj x))
+           | (None, s1) =>
+               Some (with_ev (setT s1 (TCall i) CBlocked) (EvReqWritten i (c_arg cs) (c_closure cs)))
+           end
+  | CSelected None => Some (caller_panic calls s i (ECtx 0%N))
+  | CSelected (Some (WCancelled e)) => Some (caller_return s i zero (Some e))
+  | CSelected (Some (WResp x e)) =>
+      if Nat.eqb (c_nres cs) 1 then Some (caller_return s i zero (option_map EApp e))
+      else match take_fault s 3 with
+           | (Some y, s1) => Some (caller_panic calls s1 i (EInj y))
+           | (None, s1) => Some (caller_return s1 i x (option_map EApp e))
+           end
+  | _ => None
+  end.
+
+(* second half of setErr: store + broadcast, then what the thread does next *)
+Definition step_seterr (v : variant) (s : lst) (t : tname) (e : err) (k : cont) : option lst :=
+  if tname_eqb t TLink then None else      (* the goroutine calling Link never calls setErr *)
+  let s1 := do_store v s e in
+  match k, t with
+  | KReturn e', TCall i =>
+      Some (with_ev (setT s1 t (CReturned zero (Some e'))) (EvReturn i zero (Some e')))
+  | KLoop, _ => Some (loop_done (setT s1 t Finished))
+  | _, _ => Some (setT s1 t Finished)
+  end.
+
+Definition step_waiter (v : variant) (calls : list callspec) (s : lst) (i : nat) (st : tstate) (b : nat) : option lst :=
+  let cs := nth i calls dflt_call in
+  let t := TWaiter i in
+  match st with
+  | WStart ent =>
+      let cases := map WHand (pubs_on ent (threads s))
+                   ++ (if memN (c_ctx cs) (cancelled s) then [WCtx] else [])
+                   ++ (if le_done (ents s) (cancelled s) ent then [WEnt] else []) in
+      match cases with
+      | [] => only0 b (Some (setT s t (WBlocked ent)))
+      | _ =>
+          match nth_error cases b with
+          | None => None
+          | Some (WHand n) =>
+              match tget (threads s) (TPub n) with
+              | Some (PBlocked ent' x e) =>
+                  if Nat.eqb ent ent' then Some (setT (setT s (TPub n) PSent) t (WWoke (WResp x e))) else None
+              | _ => None
+              end
+          | Some WCtx => Some (setT s t (WWoke (WCancelled (ECtx (c_ctx cs)))))
+          | Some WEnt => Some (setT s t (WWoke (WCancelled (ctx_or_closed s (c_ctx cs)))))
+          end
+      end
+  | WWoke r =>
+      only0 b
+      (match tget (threads s) (TCall i) with
+       | Some CBlocked => Some (setT (setT s (TCall i) (CSelected (Some r))) t WDeposited)
+       | _ => if res_unbuffered v then Some (setT s t (WDepositBlocked r))
+              else Some (setT s t WDeposited)
+       end)
+  | WDeposited => only0 b (Some (wake calls (setT (do_free s (N.of_nat i)) t Finished)))
+  | _ => None
+  end.
+
+Definition step_pub (s : lst) (n : nat) (st : tstate) (b : nat) : option lst :=
+  let t := TPub n in
+  match st with
+  | PEnter id x e =>
+      only0 b
+      (if bclosed s then Some (with_ev (setT s t Finished) (EvDiscard id))
+       else match lookupN id (tbl s) with
+            | None => Some (with_ev (setT s t Finished) (EvDiscard id))
+            | Some ent => Some (setT s t (PFound ent x e))
+            end)
+  | PFound ent x e =>
+      let cases := map PHand (waiters_on ent (threads s))
+                   ++ (if le_done (ents s) (cancelled s) ent then [PDone] else []) in
+      match cases with
+      | [] => only0 b (Some (setT s t (PBlocked ent x e)))
+      | _ =>
+          match nth_error cases b with
+          | None => None
+          | Some (PHand i) =>
+              match tget (threads s) (TWaiter i) with
+              | Some (WBlocked ent') =>
+                  if Nat.eqb ent ent' then Some (setT (setT s (TWaiter i) (WWoke (WResp x e))) t PSent) else None
+              | _ => None
+              end
+          | Some PDone => Some (setT s t PGaveUp)
+          end
+      end
+  | PSent => only0 b (Some (setT s t Finished))
+  | PGaveUp => only0 b (Some (setT s t Finished))
+  | _ => None
+  end.
+
+Definition step_callee (calls : list callspec) (s : lst) (t : tname) (n : nat) (st : tstate) : option lst :=
+  match t, st with
+  | TReq _, QStart f arg =>
+      match f with
+      | FUnknown => Some (begin_seterr calls s t ENoFunc KDone)
+      | FBadArgc => Some (begin_seterr calls s t EArgCount KDone)
+      | FBadArg =>
+          match take_fault s 3 with
+          | (Some y, s1) => Some (begin_seterr calls s1 t (EInj y) KDone)
+          | (None, s1) => Some (begin_seterr calls s1 t EBadArg KDone)
+          end
+      | _ =>
+          match take_fault s 3 with         (* decoding the argument *)
+          | (Some y, s1) => Some (begin_seterr calls s1 t (EInj y) KDone)
+          | (None, s1) => Some (setT (setT s1 t Finished) (THandler n) (HStart f arg))
+          end
+      end
+  | THandler _, HStart f arg =>
+      let s1 := with_ev s (EvInvoked n f arg) in
+      match f with
+      | FPanic => Some (begin_seterr calls s1 t EPanic KDone)
+      | FGated => Some (setT s1 t (HGate arg))
+      | _ => match handler_result f arg with
+             | Some (x, e) => Some (handler_respond calls s1 n x e)
+             | None => None
+             end
+      end
+  | THandler _, HGate arg => Some (handler_respond calls s n arg None)
+  | _, _ => None
+  end.
+
+Definition step_infra (v : variant) (calls : list callspec) (s : lst) (t : tname) (st : tstate) : option lst :=
+  match t, st with
+  | TWatcher, WatchWoke => Some (begin_seterr calls s t (ECtx 0%N) KDone)
+  | TLink, LBeforeRead =>
+      match fatal s with
+      | Some e => Some (setT s t (LReturn e))
+      | None => Some (setT s t LWaiting)
+      end
+  | TLink, LReturn e => Some (with_ev (setT s t LReturned) (EvLinkReturn e))
+  | TSetup, SStart =>
+      let s1 := mkL (threads s) (tbl s) (bclosed s) (ents s) (cancelled s) (fatal s) (closures s)
+                    1 (loops_done s) (flt s) (npub s) (nreq s)
+                    ((if no_link_hooks v then [] else [EvHook true true]) ++ EvHook true false :: evs s) (crashed s) in
+      let s2 := setT s1 t SWaiting in
+      let s3 := loop_again calls s2 TReqLoop QLReading in
+      Some (loop_again calls s3 TResLoop RLReading)
+  | TSetup, SWaited =>
+      Some (mkL (tset (threads s) t Finished) (tbl s) (bclosed s) (ents s) (cancelled s) (fatal s)
+                (closures s) 0 (loops_done s) (flt s) (npub s) (nreq s)
+                ((if no_link_hooks v then [] else [EvHook false true]) ++ EvHook false false :: evs s) (crashed s))
+  | _, _ => None
+  end.
+
+Definition lstep (v : variant) (calls : list callspec) (s : lst) (c : choice) (b : nat) : option lst :=
+  if crashed s then None else
+  match c with
+  | Env a => only0 b (step_env calls s a)
   | Run t =>
     match tget (threads s) t with
     | None => None
     | Some st =>
-      match t, st with
-      (* ---------------- caller ---------------- *)
-      | TCall i, CRegistered ent =>
-          only0 b
-          (let cs := nth i calls (mkCall 0 1 false 0) in
-           let s0 := setT s (TWaiter i) (WStart ent) in           (* go waiter *)
-           if memN 0%N (cancelled s0) then Some (caller_panic calls s0 i (ECtx 0%N))   (* writeRequestCtx *)
-           else match take_fault s0 0 with
-                | (Some x, s1) => Some (caller_panic calls s1 i (EInj x))
-                | (None, s1) =>
-                    Some (with_ev (setT s1 (TCall i) CBlocked) (EvReqWritten i (c_arg cs) (c_closure cs)))
-                end)
-      | TCall i, CSelected None =>
-          only0 b (Some (caller_panic calls s i (ECtx 0%N)))
-      | TCall i, CSelected (Some r) =>
-          only0 b
-          (let cs := nth i calls (mkCall 0 1 false 0) in
-           match r with
-           | WCancelled e =>
-               Some (caller_return s i zero (Some e))
-           | WResp x e =>
-               if Nat.eqb (c_nres cs) 1 then
-                 Some (caller_return s i zero (option_map EApp e))
-               else
-                 match take_fault s 3 with
-                 | (Some y, s1) => Some (caller_panic calls s1 i (EInj y))
-                 | (None, s1) => Some (caller_return s1 i x (option_map EApp e))
-                 end
-           end)
-      (* ---------------- second half of setErr ---------------- *)
-      | _, SetErrMid e k =>
-          only0 b
-          (let s1 := do_store v s e in
-           match k, t with
-           | KReturn e', TCall i =>
-               Some (with_ev (setT s1 t (CReturned zero (Some e'))) (EvReturn i zero (Some e')))
-           | KLoop, _ => Some (loop_done (setT s1 t Finished))
-           | _, _ => Some (setT s1 t Finished)
-           end)
-      (* ---------------- waiter ---------------- *)
-      | TWaiter i, WStart ent =>
-          let cs := nth i calls (mkCall 0 1 false 0) in
-          match tt with
-          | tt =>
-              let cases := map WHand (pubs_on ent (threads s))
-                           ++ (if memN (c_ctx cs) (cancelled s) then [WCtx] else [])
-                           ++ (if le_done (ents s) (cancelled s) ent then [WEnt] else []) in
-              match cases with
-              | [] => only0 b (Some (setT s t (WBlocked ent)))
-              | _ =>
-                  match nth_error cases b with
-                  | None => None
-                  | Some (WHand n) =>
-                      match tget (threads s) (TPub n) with
-                      | Some (PBlocked ent' x e) =>
-                          if Nat.eqb ent ent' then Some (setT (setT s (TPub n) PSent) t (WWoke (WResp x e))) else None
-                      | _ => None
-                      end
-                  | Some WCtx => Some (setT s t (WWoke (WCancelled (ECtx (c_ctx cs)))))
-                  | Some WEnt => Some (setT s t (WWoke (WCancelled (ctx_or_closed s (c_ctx cs)))))
-                  end
-              end
-          end
-      | TWaiter i, WWoke r =>
-          only0 b
-          (match tget (threads s) (TCall i) with
-           | Some CBlocked => Some (setT (setT s (TCall i) (CSelected (Some r))) t WDeposited)
-           | _ => if res_unbuffered v then Some (setT s t (WDepositBlocked r))
-                  else Some (setT s t WDeposited)
-           end)
-      | TWaiter i, WDeposited =>
-          only0 b (Some (wake calls (setT (do_free s (N.of_nat i)) t Finished)))
-      (* ---------------- publisher ---------------- *)
-      | TPub n, PEnter id x e =>
-          only0 b
-          (if bclosed s then Some (with_ev (setT s t Finished) (EvDiscard id))
-           else match lookupN id (tbl s) with
-                | None => Some (with_ev (setT s t Finished) (EvDiscard id))
-                | Some ent => Some (setT s t (PFound ent x e))
-                end)
-      | TPub n, PFound ent x e =>
-          let cases := map PHand (waiters_on ent (threads s))
-                       ++ (if le_done (ents s) (cancelled s) ent then [PDone] else []) in
-          match cases with
-          | [] => only0 b (Some (setT s t (PBlocked ent x e)))
-          | _ =>
-              match nth_error cases b with
-              | None => None
-              | Some (PHand i) =>
-                  match tget (threads s) (TWaiter i) with
-                  | Some (WBlocked ent') =>
-                      if Nat.eqb ent ent' then Some (setT (setT s (TWaiter i) (WWoke (WResp x e))) t PSent) else None
-                  | _ => None
-                  end
-              | Some PDone => Some (setT s t PGaveUp)
-              end
-          end
-      | TPub n, PSent => only0 b (Some (setT s t Finished))
-      | TPub n, PGaveUp => only0 b (Some (setT s t Finished))
-      (* ---------------- resolver and handler ---------------- *)
-      | TReq n, QStart f arg =>
-          only0 b
-          (match f with
-           | FUnknown => Some (begin_seterr calls s t ENoFunc KDone)
-           | FBadArgc => Some (begin_seterr calls s t EArgCount KDone)
-           | FBadArg =>
-               match take_fault s 3 with
-               | (Some y, s1) => Some (begin_seterr calls s1 t (EInj y) KDone)
-               | (None, s1) => Some (begin_seterr calls s1 t EBadArg KDone)
-               end
-           | _ =>
-               match take_fault s 3 with         (* decoding the argument *)
-               | (Some y, s1) => Some (begin_seterr calls s1 t (EInj y) KDone)
-               | (None, s1) => Some (setT (setT s1 t Finished) (THandler n) (HStart f arg))
-               end
-           end)
-      | THandler n, HStart f arg =>
-          only0 b
-          (let s1 := with_ev s (EvInvoked n f arg) in
-           match f with
-           | FPanic => Some (begin_seterr calls s1 t EPanic KDone)
-           | FGated => Some (setT s1 t (HGate arg))
-           | _ => match handler_result f arg with
-                  | Some (x, e) => Some (handler_respond calls s1 n x e)
-                  | None => None
-                  end
-           end)
-      | THandler n, HGate arg => only0 b (Some (handler_respond calls s n arg None))
-      (* ---------------- watcher ---------------- *)
-      | TWatcher, WatchWoke => only0 b (Some (begin_seterr calls s t (ECtx 0%N) KDone))
-      (* ---------------- Link ---------------- *)
-      | TLink, LBeforeRead =>
-          only0 b (match fatal s with
-                   | Some e => Some (setT s t (LReturn e))
-                   | None => Some (setT s t LWaiting)
-                   end)
-      | TLink, LReturn e => only0 b (Some (with_ev (setT s t LReturned) (EvLinkReturn e)))
-      (* ---------------- set-up ---------------- *)
-      | TSetup, SStart =>
-          only0 b
-          (let s1 := mkL (threads s) (tbl s) (bclosed s) (ents s) (cancelled s) (fatal s) (closures s)
-                         1 (loops_done s) (flt s) (npub s) (nreq s)
-                         ((if no_link_hooks v then [] else [EvHook true true]) ++ EvHook true false :: evs s) (crashed s) in
-           let s2 := setT s1 t SWaiting in
-           let s3 := loop_again calls s2 TReqLoop QLReading in
-           Some (loop_again calls s3 TResLoop RLReading))
-      | TSetup, SWaited =>
-          only0 b
-          (Some (mkL (tset (threads s) t Finished) (tbl s) (bclosed s) (ents s) (cancelled s) (fatal s)
-                     (closures s) 0 (loops_done s) (flt s) (npub s) (nreq s)
-                     ((if no_link_hooks v then [] else [EvHook false true]) ++ EvHook false false :: evs s) (crashed s)))
-      | _, _ => None
+      match st with
+      | SetErrMid e k => only0 b (step_seterr v s t e k)
+      | _ =>
+        match t with
+        | TCall i => only0 b (step_caller calls s i st)
+        | TWaiter i => step_waiter v calls s i st b
+        | TPub n => step_pub s n st b
+        | TReq n | THandler n => only0 b (step_callee calls s t n st)
+        | _ => only0 b (step_infra v calls s t st)
+        end
       end
     end
   end.
